@@ -101,6 +101,7 @@ def check_diff(case):
         it = HD.CapIter(sc["iterator"], sc["cap"])
         ncalls = len(sc["durations"])
         mid = 0
+        toggled = False
         for k, dur in enumerate(sc["durations"]):
             try:
                 m.solve(dur, solverType=it, minDtFrac=1e-10)
@@ -110,6 +111,16 @@ def check_diff(case):
                 if "sum up to above 1" in str(e):
                     break
                 raise
+            op = (case.get("rec_ops") or [None] * ncalls)[k] if k < len(case.get("rec_ops") or []) else None
+            if op == "disable":
+                m.disableRecording()                 # documented: keeps what was recorded so far
+                toggled = True
+            elif op == "enable":
+                m.enableRecording()
+                toggled = True
+            elif op == "remove" and not m._record:
+                m.removeRecordedData()
+                toggled = True
             if k in case["save_after"] or k == ncalls - 1:
                 fn = os.path.join(tmp, "d%d" % k)
                 m.save(fn)
@@ -128,14 +139,18 @@ def check_diff(case):
                     return out
                 if float(loaded["t"]) != float(m.t) or not _same(loaded["x"], m.x):
                     out.fail("state_not_reproduced", "diffusion model: current time/profile differ after load")
-                if case["record"]:
-                    if not (_same(loaded["rx"], m._recordedX) and _same(loaded["rt"], m._recordedTime)):
-                        out.fail("history_not_reproduced", "diffusion model: recorded profile history differs after load")
+                have = m._recordedX is not None and m._recordedTime is not None
+                if have != (loaded["rx"] is not None):
+                    out.fail("history_not_reproduced", "diffusion model holds %s recorded history (recording flag %s) but the loaded model holds %s" % ("a" if have else "no", m._record, "one" if loaded["rx"] is not None else "none"), toggled=toggled)
+                elif have and not (_same(loaded["rx"], m._recordedX) and _same(loaded["rt"], m._recordedTime)):
+                    out.fail("history_not_reproduced", "diffusion model: recorded profile history differs after load", toggled=toggled)
     finally:
         sys.stdout = so
         shutil.rmtree(tmp, ignore_errors=True)
     out.label("record_on" if case["record"] else "record_off", sc["model"])
-    out.nt(mid > 0)
+    if toggled:
+        out.label("recording_toggled_between_calls")
+    out.nt(mid > 0 or toggled)
     return out
 
 
@@ -253,7 +268,8 @@ def _diff_case(draw):
         t = sc["durations"][0]
         sc["durations"] = [t * 0.5, t * 0.5]
     n = len(sc["durations"])
-    return {"sc": sc, "record": draw(st.booleans()), "save_after": sorted(set(draw(st.lists(st.integers(0, n - 1), min_size=0, max_size=n))))}
+    rec_ops = [draw(st.sampled_from([None, None, None, "disable", "enable", "remove"])) for _ in range(n)]
+    return {"sc": sc, "record": draw(st.booleans()), "rec_ops": rec_ops, "save_after": sorted(set(draw(st.lists(st.integers(0, n - 1), min_size=0, max_size=n))))}
 
 
 @st.composite
@@ -280,7 +296,7 @@ def clauses():
                rule="generator: toy binary scenario (1-3 phases, PSD recording on a random subset) solved in 1-3 calls, saved after a random subset of the calls (always after the last) and loaded into a freshly built model of the same configuration; "
                     "oracle: all 16 pData arrays, step counter, PSD/bounds/centres/grid scalars identical; recorded PSD identical through saveRecordedPSD/loadRecordedPSD; non-trivial: a save strictly between two solve calls after >= 5 steps"),
         Clause("diffusion_saveload", _diff_case, check_diff, quick=800, thorough=20000, shrink=False,
-               rule="generator: single-phase stub diffusion scenario, recording on/off, 1-4 solve calls, saved after a random subset of calls and loaded into a fresh model; oracle: load succeeds, current time/profile and (recording on) the recorded history identical; non-trivial: a save between two solve calls"),
+               rule="generator: single-phase stub diffusion scenario, recording on/off at construction and toggled between solve calls (disableRecording keeps the history, enableRecording restarts it, removeRecordedData while disabled), 1-4 solve calls, saved after a random subset of calls and loaded into a fresh model; oracle: load succeeds, current time/profile and (recording on) the recorded history identical; non-trivial: a save between two solve calls"),
         Clause("surrogate", _surr_case, check_surrogate, quick=800, thorough=20000,
                rule="generator: BinarySurrogate over an analytic binary backend, trained for a random subset of {driving force, diffusivity, interfacial composition} on linear/log grids (single temperature or 2-3 temperatures), three kernels; "
                     "oracle: untrained getters return exactly the backend's value for the same quantity, trained models reproduce their training outputs at the training inputs, a surrogate rebuilt from its JSON file predicts identically; non-trivial: at least one trained and one untrained quantity"),
